@@ -376,14 +376,14 @@ func init() {
 			for i := 0; i < 12; i++ {
 				s := d.NewSpec("cons", fmt.Sprintf("cons-%d", i), i, 16)
 				s.N = d.Pick(8, 120)
-				s.TimeoutS = 1500
+				s.TimeoutS = int(d.Pick(300, 1500))
 				specs = append(specs, s)
 			}
 			for i := 0; i < 4; i++ {
 				s := d.NewSpec("cons", fmt.Sprintf("race-%d", i), 100+i, 16)
 				s.Flavour = "race"
 				s.N = d.Pick(6, 60)
-				s.TimeoutS = 1500
+				s.TimeoutS = int(d.Pick(300, 1500))
 				specs = append(specs, s)
 			}
 			// a backlog of several seconds at the moment of Stop (quick: 2 x ~3 s, thorough: 2 x ~20 s)
@@ -391,7 +391,7 @@ func init() {
 				b := d.NewSpec("backlog", "backlog-"+pol, 200+i, 16)
 				b.N = d.Pick(1300, 6000) // x 5 ms per item: 6.5 s / 30 s of queued work when Stop is called
 				b.Args["policy"] = pol
-				b.TimeoutS = 900
+				b.TimeoutS = int(d.Pick(300, 900))
 				specs = append(specs, b)
 			}
 			outs := d.RunWorkers(specs, 16)
